@@ -59,6 +59,9 @@ class BaseValidator(object):
         self._expected_item_count = len(self._cid.field_formats)
         self._location = None
         self._is_closed = False
+        # Forget anything the checks have collected during previous use of the CID.
+        for check in self._cid.check_map.values():
+            check.reset()
 
     def __enter__(self):
         return self
